@@ -931,41 +931,119 @@ def alpha_world(rng):
                 v = "?q3"
             scope = list(a["params"]) + [(v, ty)]
             body = [x for x in (G.gen_form(rng, w, scope, 1, True, True) for _ in range(rng.randint(1, 3))) if x]
+            for _ in range(12):
+                if mentions(body, {v}):
+                    break                                      # the quantified variable is read by its body
+                x = G.gen_form(rng, w, scope, 1, True, True)
+                if x and mentions(x, {v}):
+                    body.append(x)
             if body:
                 a["pre"].append(["forall", [v, "-", ty], [rng.choice(["and", "or"])] + body])
                 w.features.add("forall-pre")
+        if not bound_vars(a["eff"]) and rng.random() < 0.7:
+            # a forall-when effect whose effect part mentions a parameter beside the quantified variable
+            ty = rng.choice(w.all_types())
+            scope = list(a["params"]) + [("?u", ty)]
+            cond = [x for x in (G.gen_form(rng, w, scope, 1, True, in_forall=True) for _ in range(rng.randint(1, 2))) if x]
+            pol = polarity_table(a["eff"])
+            lits = []
+            for _ in range(6):
+                lit = G.gen_atom(rng, w, scope)
+                if lit and "?u" in lit and pol.get(lit[0], {True}) == {True} and lit not in lits:
+                    lits.append(lit)
+            if cond and lits:
+                a["eff"] = as_conj(a["eff"]) + [["forall", ["?u", "-", ty], ["when", ["and"] + cond, ["and"] + lits[:2]]]]
+                w.features.add("forall-when")
         if bound_vars(a["pre"]) | bound_vars(a["eff"]):
             return w, a
 
 
+def quantifier_trees(a, var):
+    """the (forall (var - ty) ...) subtrees of the action"""
+    out = []
+
+    def walk(t):
+        if isinstance(t, list):
+            if t and t[0] == "forall" and len(t) == 3 and isinstance(t[1], list) and t[1] and t[1][0] == var:
+                out.append(t)
+            for x in t:
+                walk(x)
+    walk(a["pre"])
+    walk(a["eff"])
+    return out
+
+
+def shape_names(rng, w, a, v):
+    """give names of the shape the library would pick for the quantified variable v (v_0, v_1 ...; v_00, v_0x: candidates
+    that are SUBSTRINGS of a name) to parameters of the action, chosen by WHERE they occur: inside v's quantifier (in the
+    condition / only in the effect part of a forall-when), only outside it (then the name is a key of the mapping and not
+    in the quantifier's text); to another quantified variable; to a further, nested quantifier -> tags"""
+    tags = []
+    fam = family(v)
+    qts = quantifier_trees(a, v)
+    ps = [p for p, _ in a["params"]]
+    inside = [p for p in ps if any(mentions(q, {p}) for q in qts)]
+    outside = [p for p in ps if p not in inside]
+    eff_only = [p for p in ps for q in qts if isinstance(q[2], list) and q[2] and q[2][0] == "when"
+                and mentions(q[2][2], {p}) and not mentions(q[2][1], {p})]
+    eff_q = [q for q in qts if isinstance(q[2], list) and q[2] and q[2][0] == "when"]
+    feasible = (["inside", "inside-substring"] if inside else []) + (["outside", "outside"] if outside else []) + \
+        (["effect-only"] * 4 if eff_q else []) + ["none"]
+    place = rng.choice(feasible)
+    if place == "effect-only" and not eff_only and eff_q:
+        # plant a literal effect that mentions a parameter beside the quantified variable
+        q = eff_q[0]
+        pol = polarity_table(a["eff"])
+        for _ in range(30):
+            cands = [p for p in ps if not mentions(q[2][1], {p})]
+            if not cands:
+                break
+            p = rng.choice(cands)
+            lit = G.gen_atom(rng, w, [(v, q[1][2]), (p, dict(a["params"])[p])])
+            if lit and p in lit and pol.get(lit[0], {True}) == {True}:
+                res = as_conj(q[2][2])
+                if canon(lit) not in {canon(x) for x in res[1:]}:
+                    q[2][2] = res + [lit]
+                    eff_only = [p]
+                    break
+    chosen = None
+    if place == "inside" and inside:
+        chosen, new = rng.choice(inside), rng.choice(fam[:3])
+    elif place == "inside-substring" and inside:
+        chosen, new = rng.choice(inside), rng.choice(fam[3:])
+    elif place == "outside" and outside:
+        chosen, new = rng.choice(outside), rng.choice(fam[:2])
+    elif place == "effect-only" and eff_only:
+        chosen, new = rng.choice(eff_only), rng.choice(fam[:2])
+    moved_key = None
+    if chosen:
+        rename_everywhere(a, chosen, new)
+        fam.remove(new)
+        tags.append("parameter-" + place)
+        if place == "outside":
+            moved_key = new
+    bound = sorted(bound_vars(a["pre"]) | bound_vars(a["eff"]))
+    others = [b for b in bound if b != v]
+    if others and rng.random() < 0.4:
+        b = rng.choice(others)
+        new = rng.choice(fam[:3])
+        a["pre"], a["eff"] = subst_tree(a["pre"], b, new), subst_tree(a["eff"], b, new)
+        fam.remove(new)
+        tags.append("other-quantifier")
+    if rng.random() < 0.35 and nest_quantifier(rng, w, a, rng.choice(fam[:2])):
+        tags.append("nested-quantifier")
+    return tags, moved_key
+
+
 def alpha_cases(rng, tier):
-    n_worlds = {"quick": 18, "thorough": 90}[tier]
+    n_worlds = {"quick": 20, "thorough": 90}[tier]
     cases = []
     for _ in range(n_worlds):
         w, a = alpha_world(rng)
         bound = sorted(bound_vars(a["pre"]) | bound_vars(a["eff"]))
-        v = rng.choice(bound)
-        fam = family(v)
-        shaped = []
-        # names of that shape already in the action: a parameter, another quantified variable, a nested quantifier
-        ps = [p for p, _ in a["params"]]
-        if rng.random() < 0.5:
-            p = rng.choice(ps)
-            new = rng.choice(fam)
-            rename_everywhere(a, p, new)
-            shaped.append("parameter")
-            fam_left = [x for x in fam if x != new]
-        else:
-            fam_left = list(fam)
-        others = [b for b in bound if b != v]
-        if others and rng.random() < 0.5:
-            b = rng.choice(others)
-            new = rng.choice(fam_left)
-            a["pre"], a["eff"] = subst_tree(a["pre"], b, new), subst_tree(a["eff"], b, new)
-            fam_left.remove(new)
-            shaped.append("other-quantifier")
-        if rng.random() < 0.4 and nest_quantifier(rng, w, a, rng.choice(fam_left[:3])):
-            shaped.append("nested-quantifier")
+        eff_bound = sorted(bound_vars(a["eff"]))
+        v = rng.choice(eff_bound) if eff_bound and rng.random() < 0.6 else rng.choice(bound)
+        shaped, moved_key = shape_names(rng, w, a, v)
         ps = [p for p, _ in a["params"]]
         bound = sorted(bound_vars(a["pre"]) | bound_vars(a["eff"]))
         consts = {c for c, _ in w.consts}
@@ -982,21 +1060,27 @@ def alpha_cases(rng, tier):
         done = set()
         for _ in range(3):
             # new names: a quantified variable, then (mostly) the names the library would pick for it, in order
-            order = [p for p in ps]
+            b = v if v in bound and rng.random() < 0.8 else rng.choice(bound)
+            order = [p for p in ps if p != moved_key]
             rng.shuffle(order)
-            k = rng.randint(1, len(order))
+            k = rng.randint(1, len(order)) if order else 0
             movers = order[:k]
-            b = rng.choice(bound)
             ladder = [b] + [x for x in family(b)[:2 if rng.random() < 0.7 else 1]]
+            if moved_key and rng.random() < 0.6:
+                ladder = [b]                                   # the first candidate is then the moved parameter's old name
             pool = [x for x in bound + family(v) + fresh + ps if x not in ladder and x not in consts]
             targets = []
             for i, p in enumerate(movers):
                 if i < len(ladder) and rng.random() < 0.85:
                     targets.append(ladder[i])
                 else:
-                    cand = [x for x in pool if x not in targets]
-                    targets.append(rng.choice(cand))
-            if len(set(targets)) < len(targets):
+                    targets.append(rng.choice([x for x in pool if x not in targets]))
+            if moved_key and rng.random() < 0.8:
+                # the parameter that carries a fresh-shaped name and lives outside the quantifier moves too: its name is a
+                # KEY of the mapping that the quantifier's text does not show
+                movers.append(moved_key)
+                targets.append(rng.choice([x for x in fresh + [p for p in ps if p != moved_key] if x not in targets] or fresh))
+            if not movers or len(set(targets)) < len(targets):
                 continue
             rho = dict(zip(movers, targets))
             if len({rho.get(p, p) for p in ps}) < len(ps):
@@ -1310,7 +1394,20 @@ def run(args):
                    "(hash_seeds_mirrored_cases) and a case whose observation does not change with the hash seed is not judged twice. "
                    "Plus sequences of calls on one action (24 quick / 100 thorough): a mapping then its inverse, the same mapping two or three "
                    "times, a second mapping chosen for the renamed action (kinds 'roundtrip:', 'twice:', 'then:', 'there-and-back-and-on:'). "
-                   "Each case yields a signature unit, a text unit and (applicability, successor) units per probe. A unit is non-trivial when the "
+                   "Plus 'alias' worlds (12 quick / 60 thorough; also 35% of the ordinary worlds): the variables of the (:predicates) / "
+                   "(:functions) declarations carry the NAMES of the action parameters ((f0 ?x0 - t) used as (f0 ?x0)), every action of the "
+                   "domain has the same parameter names, and the applications spelt like their declaration occur 1, 2, 3, 4 ... times in one "
+                   "action (precondition, nested or, when- and forall-when conditions, target and right-hand side of numeric effects; action "
+                   "features declared-application-occurs:even/odd), under swap / rotation / chain / permutation / overlap / fresh mappings. "
+                   "Plus 'alpha' worlds (20 quick / 90 thorough, kind 'alpha-pool'): an action with a quantified precondition and/or a "
+                   "forall-when effect in which names of the shape the library picks for a quantified variable ?v that has to move (?v_0, ?v_1, "
+                   "?v_2; ?v_00, ?v_0x, ?v_0_0, ?v_10: candidates that are substrings of a name) are already taken - by a parameter that occurs "
+                   "inside ?v's quantifier / only in the effect part of the forall-when / only outside the quantifier (then it is a key of the "
+                   "mapping), by another quantified variable, by a further quantifier nested inside - and the mapping's new names are drawn from "
+                   "the quantified variables, those shapes (mostly ?v then ?v_0 then ?v_1, in that order), the other parameters and fresh names. "
+                   "Each case yields a signature unit, a text unit, an isolation unit (the declared predicates and functions of the domain and "
+                   "its other actions print after the call(s) what they printed before - demanded whatever the mapping) and (applicability, "
+                   "successor) units per probe. A unit is non-trivial when the "
                    "mapping moves at least one parameter, is of an admissible kind, the action/world uses an optional feature and (for probes) the "
                    "state has facts; distinct by input hash. Admissibility is re-decided inside Coq on the spec's reading of the action.")
     cov["samples"] = [{"action_text": u["input"]["implementation"]["print0"], "mapping": u["input"]["case"]["mapping"],
